@@ -1446,7 +1446,7 @@ func (g *c12Gen) directFetch() {
 		for _, d := range docs {
 			args = append(args, d.Raw)
 		}
-		out := c.Run("C12.direct_fetch", args, "C12.direct_fetch", "", "direct fetch")
+		out := c.Run("C12.direct_fetch", args, "C12.direct_fetch", "C12.prop.direct_fetch", "direct fetch")
 		c.Count("direct_fetch")
 		if strings.Contains(string(out), ";L=;") {
 			c.Count("direct_fetch/no-notary-fallback")
@@ -1523,7 +1523,7 @@ func (g *c12Gen) perspectiveFetch() {
 		for _, d := range docs {
 			args = append(args, d.Raw)
 		}
-		out := c.Run("C12.perspective_fetch", args, "C12.perspective_fetch", "", "perspective fetch")
+		out := c.Run("C12.perspective_fetch", args, "C12.perspective_fetch", "C12.prop.perspective_fetch", "perspective fetch")
 		c.Count("perspective_fetch")
 		if strings.HasSuffix(string(out), ";E") {
 			c.Count("perspective_fetch/error")
